@@ -4,6 +4,7 @@
 //! A case line is an abstract dump model (compact text, see `Model::parse`):
 //!   roundtrip fl=<flags> pad=<0|1> T=<threads> M=<modules> R=<regions> I=<meminfo> N=<thread names>
 //!             U=<unloaded> X=<exception|-> S=<system info|-> D=<extra raw streams>
+//!             [Y=<misc info|->]   (optional trailing fields: absent = the model has no such stream)
 //!
 //! `exec` serializes the model with **minidump-synth** (a foreign serializer: directory last, data
 //! interleaved with the streams) in {LE, BE} x {MemoryList, Memory64List}, reads each dump with the
@@ -141,6 +142,230 @@ struct Sys {
     csd: Vec<u32>,
 }
 
+/// `MINIDUMP_MISC_INFO*`: revision 1..5, every scalar of that revision in declaration order, and
+/// bytes that follow the struct inside the stream
+#[derive(Clone, Debug, PartialEq)]
+struct Misc {
+    ver: u8,
+    tail: Blob,
+    vals: Vec<u64>,
+}
+
+/// field widths of MINIDUMP_MISC_INFO_5, flattened, written from the documented struct
+/// (minidumpapiset.h): 15 u32; TIME_ZONE_INFORMATION = LONG, WCHAR[32], SYSTEMTIME (8 WORD), LONG,
+/// WCHAR[32], SYSTEMTIME, LONG; WCHAR[260]; WCHAR[40]; XSTATE_CONFIG_FEATURE_MSC_INFO = ULONG, ULONG,
+/// ULONG64, XSTATE_FEATURE[64] (ULONG, ULONG); ULONG
+fn misc_widths() -> Vec<usize> {
+    let mut w = vec![4usize; 15];
+    for _ in 0..2 {
+        w.push(4);
+        w.extend(std::iter::repeat(2).take(32 + 8));
+    }
+    w.push(4);
+    w.extend(std::iter::repeat(2).take(260 + 40));
+    w.extend([4, 4, 8]);
+    w.extend(std::iter::repeat(4).take(128));
+    w.push(4);
+    w
+}
+/// number of scalars in revision 1..5
+const MISC_COUNTS: [usize; 5] = [6, 11, 98, 398, 530];
+/// wire size of revision 1..5
+const MISC_SIZES: [usize; 5] = [24, 44, 232, 832, 1364];
+
+/// (accessor, first revision, guarding Flags1 bit, first scalar, number of scalars) — the documented
+/// validity rules of MINIDUMP_MISC_INFO_N
+const MISC_FIELDS: [(&str, u8, u32, usize, usize); 20] = [
+    ("size_of_info", 1, 0, 0, 1),
+    ("flags1", 1, 0, 1, 1),
+    ("process_id", 1, 0x1, 2, 1),
+    ("process_create_time", 1, 0x2, 3, 1),
+    ("process_user_time", 1, 0x2, 4, 1),
+    ("process_kernel_time", 1, 0x2, 5, 1),
+    ("processor_max_mhz", 2, 0x4, 6, 1),
+    ("processor_current_mhz", 2, 0x4, 7, 1),
+    ("processor_mhz_limit", 2, 0x4, 8, 1),
+    ("processor_max_idle_state", 2, 0x4, 9, 1),
+    ("processor_current_idle_state", 2, 0x4, 10, 1),
+    ("process_integrity_level", 3, 0x10, 11, 1),
+    ("process_execute_flags", 3, 0x20, 12, 1),
+    ("protected_process", 3, 0x80, 13, 1),
+    ("time_zone_id", 3, 0x40, 14, 1),
+    ("time_zone", 3, 0x40, 15, 83),
+    ("build_string", 4, 0x100, 98, 260),
+    ("dbg_bld_str", 4, 0x100, 358, 40),
+    ("xstate_data", 5, 0, 398, 131),
+    ("process_cookie", 5, 0x200, 529, 1),
+];
+
+/// numbers separated by '.', `z<n>` = n zeros
+fn nums_z(s: &str) -> Option<Vec<u64>> {
+    let mut v = Vec::new();
+    if s.is_empty() {
+        return Some(v);
+    }
+    for t in s.split('.') {
+        if let Some(n) = t.strip_prefix('z') {
+            let n: usize = n.parse().ok()?;
+            if n > 4096 {
+                return None;
+            }
+            v.extend(std::iter::repeat(0).take(n));
+        } else {
+            v.push(t.parse().ok()?);
+        }
+    }
+    Some(v)
+}
+fn dotted_z(xs: &[u64]) -> String {
+    let mut out: Vec<String> = Vec::new();
+    let mut i = 0;
+    while i < xs.len() {
+        if xs[i] == 0 {
+            let mut j = i;
+            while j < xs.len() && xs[j] == 0 {
+                j += 1;
+            }
+            if j - i >= 3 {
+                out.push(format!("z{}", j - i));
+                i = j;
+                continue;
+            }
+        }
+        out.push(xs[i].to_string());
+        i += 1;
+    }
+    out.join(".")
+}
+
+impl Misc {
+    fn text(&self) -> String {
+        format!("{},{},{}", self.ver, self.tail.text, dotted_z(&self.vals))
+    }
+    fn parse(s: &str) -> Option<Option<Misc>> {
+        if s == "-" {
+            return Some(None);
+        }
+        let p: Vec<&str> = s.split(',').collect();
+        match p.as_slice() {
+            [ver, tail, vals] => {
+                let ver: u8 = ver.parse().ok()?;
+                let vals = nums_z(vals)?;
+                let w = misc_widths();
+                // the harness only builds models the wire format can carry
+                if !(1..=5).contains(&ver) || vals.len() != MISC_COUNTS[ver as usize - 1] {
+                    return None;
+                }
+                if vals.iter().zip(w.iter()).any(|(v, w)| *w < 8 && *v >> (8 * *w) != 0) {
+                    return None;
+                }
+                let tail = Blob::parse(tail)?;
+                if ver < 5 && MISC_SIZES[ver as usize - 1] + tail.data.len() >= MISC_SIZES[ver as usize] {
+                    return None;
+                }
+                Some(Some(Misc { ver, tail, vals }))
+            }
+            _ => None,
+        }
+    }
+    /// the stream bytes, written field by field
+    fn bytes(&self, be: bool) -> Vec<u8> {
+        let mut out = Vec::new();
+        for (v, w) in self.vals.iter().zip(misc_widths()) {
+            let le = v.to_le_bytes();
+            if be {
+                out.extend(le[..w].iter().rev());
+            } else {
+                out.extend(&le[..w]);
+            }
+        }
+        out.extend(&self.tail.data);
+        out
+    }
+    /// The same model through minidump-synth's `MiscStream` — possible when the model is what that
+    /// writer can express (flags consistent with the revision, unguarded fields zero, size_of_info =
+    /// the stream length, zero padding); `None` otherwise.
+    fn synth_bytes(&self, be: bool) -> Option<Vec<u8>> {
+        let v = &self.vals;
+        let fl = v[1] as u32;
+        let g = |i: usize| v.get(i).copied().unwrap_or(0);
+        let mut s = synth::MiscStream::new(tend(be));
+        if fl & 1 != 0 {
+            s.process_id = Some(g(2) as u32);
+        }
+        if fl & 2 != 0 {
+            s.process_times = Some(synth::MiscFieldsProcessTimes {
+                process_create_time: g(3) as u32,
+                process_user_time: g(4) as u32,
+                process_kernel_time: g(5) as u32,
+            });
+        }
+        if fl & 4 != 0 {
+            s.power_info = Some(synth::MiscFieldsPowerInfo {
+                processor_max_mhz: g(6) as u32,
+                processor_current_mhz: g(7) as u32,
+                processor_mhz_limit: g(8) as u32,
+                processor_max_idle_state: g(9) as u32,
+                processor_current_idle_state: g(10) as u32,
+            });
+        }
+        if fl & 0x10 != 0 {
+            s.process_integrity_level = Some(g(11) as u32);
+        }
+        if fl & 0x20 != 0 {
+            s.process_execute_flags = Some(g(12) as u32);
+        }
+        if fl & 0x80 != 0 {
+            s.protected_process = Some(g(13) as u32);
+        }
+        if fl & 0x40 != 0 {
+            let name = |at: usize| -> [u16; 32] { std::array::from_fn(|i| g(at + i) as u16) };
+            let date = |at: usize| md::SYSTEMTIME {
+                year: g(at) as u16,
+                month: g(at + 1) as u16,
+                day_of_week: g(at + 2) as u16,
+                day: g(at + 3) as u16,
+                hour: g(at + 4) as u16,
+                minute: g(at + 5) as u16,
+                second: g(at + 6) as u16,
+                milliseconds: g(at + 7) as u16,
+            };
+            s.time_zone = Some(synth::MiscFieldsTimeZone {
+                time_zone_id: g(14) as u32,
+                time_zone: md::TIME_ZONE_INFORMATION {
+                    bias: g(15) as u32 as i32,
+                    standard_name: name(16),
+                    standard_date: date(48),
+                    standard_bias: g(56) as u32 as i32,
+                    daylight_name: name(57),
+                    daylight_date: date(89),
+                    daylight_bias: g(97) as u32 as i32,
+                },
+            });
+        }
+        if fl & 0x100 != 0 {
+            s.build_strings = Some(synth::MiscFieldsBuildString {
+                build_string: std::array::from_fn(|i| g(98 + i) as u16),
+                dbg_bld_str: std::array::from_fn(|i| g(358 + i) as u16),
+            });
+        }
+        if self.ver == 5 {
+            s.misc_5 = Some(synth::MiscInfo5Fields {
+                xstate_data: md::XSTATE_CONFIG_FEATURE_MSC_INFO {
+                    size_of_info: g(398) as u32,
+                    context_size: g(399) as u32,
+                    enabled_features: g(400),
+                    features: std::array::from_fn(|i| md::XSTATE_FEATURE { offset: g(401 + 2 * i) as u32, size: g(402 + 2 * i) as u32 }),
+                },
+                process_cookie: if fl & 0x200 != 0 { Some(g(529) as u32) } else { None },
+            });
+        }
+        s.pad_to_size = Some(MISC_SIZES[self.ver as usize - 1] + self.tail.data.len());
+        let got = catch(|| Section::from(s).get_contents()).ok().flatten()?;
+        (got == self.bytes(be)).then_some(got)
+    }
+}
+
 #[derive(Clone, Debug, PartialEq, Default)]
 struct Model {
     flags: u64,
@@ -155,6 +380,7 @@ struct Model {
     exc: Option<Exc>,
     sys: Option<Sys>,
     extra: Vec<(u32, Blob)>,
+    misc: Option<Misc>,
 }
 
 fn name_text(cs: &[u32]) -> String {
@@ -273,8 +499,9 @@ impl Model {
             ),
         };
         let d: Vec<String> = self.extra.iter().map(|(ty, b)| format!("{},{}", ty, b.text)).collect();
+        let y = self.misc.as_ref().map(|y| y.text()).unwrap_or("-".into());
         format!(
-            "roundtrip fl={} pad={} T={} M={} R={} I={} N={} U={} X={} S={} D={}",
+            "roundtrip fl={} pad={} T={} M={} R={} I={} N={} U={} X={} S={} D={} Y={}",
             self.flags,
             self.pad as u8,
             t.join(";"),
@@ -285,13 +512,14 @@ impl Model {
             u.join(";"),
             x,
             s,
-            d.join(";")
+            d.join(";"),
+            y
         )
     }
 
     fn parse(case: &str) -> Option<Model> {
         let f: Vec<&str> = case.split(' ').collect();
-        if f.len() != 12 || f[0] != "roundtrip" {
+        if !(f.len() == 12 || f.len() == 13) || f[0] != "roundtrip" {
             return None;
         }
         let mut m = Model { flags: f[1].strip_prefix("fl=")?.parse().ok()?, ..Default::default() };
@@ -397,6 +625,9 @@ impl Model {
             [ty, b] => Some((ty.parse().ok()?, Blob::parse(b)?)),
             _ => None,
         })?;
+        if f.len() > 12 {
+            m.misc = Misc::parse(f[12].strip_prefix("Y=")?)?;
+        }
         Some(m)
     }
 }
@@ -626,6 +857,14 @@ fn build_synth(m: &Model, be: bool, mem64: bool) -> Option<Vec<u8>> {
             section: Section::with_endian(e).D32(12).D32(24).D32(0),
         });
     }
+    // misc info: through synth's MiscStream when it can express the model, else field by field
+    if let Some(y) = &m.misc {
+        let bytes = y.synth_bytes(be).unwrap_or_else(|| y.bytes(be));
+        d = d.add_stream(synth::SimpleStream {
+            stream_type: md::MINIDUMP_STREAM_TYPE::MiscInfoStream as u32,
+            section: Section::with_endian(e).append_bytes(&bytes),
+        });
+    }
     d.finish()
 }
 
@@ -698,6 +937,77 @@ fn cv_text(cv: Option<&CodeView>, be: bool) -> String {
             format!("unk:{}:{}", sig, blob(&raw[4..]))
         }
     }
+}
+
+/// a list of numbers in a report: one number as such, several as `<count>:<fnv64 of the 8-byte LE values>`
+fn nat_list(vs: &[u64]) -> String {
+    if vs.len() == 1 {
+        return vs[0].to_string();
+    }
+    let bytes: Vec<u8> = vs.iter().flat_map(|v| v.to_le_bytes()).collect();
+    format!("{}:{}", vs.len(), fnv_hex(&bytes))
+}
+
+fn tz_vals(t: &md::TIME_ZONE_INFORMATION) -> Vec<u64> {
+    let date = |d: &md::SYSTEMTIME| [d.year, d.month, d.day_of_week, d.day, d.hour, d.minute, d.second, d.milliseconds].map(|x| x as u64);
+    let mut v = vec![t.bias as u32 as u64];
+    v.extend(t.standard_name.iter().map(|x| *x as u64));
+    v.extend(date(&t.standard_date));
+    v.push(t.standard_bias as u32 as u64);
+    v.extend(t.daylight_name.iter().map(|x| *x as u64));
+    v.extend(date(&t.daylight_date));
+    v.push(t.daylight_bias as u32 as u64);
+    v
+}
+
+/// every accessor of `RawMiscInfo`, in the order of the `misc_accessors!` invocation
+fn misc_text(mi: &MinidumpMiscInfo) -> String {
+    let r = &mi.raw;
+    let ver = match r {
+        RawMiscInfo::MiscInfo(_) => 1,
+        RawMiscInfo::MiscInfo2(_) => 2,
+        RawMiscInfo::MiscInfo3(_) => 3,
+        RawMiscInfo::MiscInfo4(_) => 4,
+        RawMiscInfo::MiscInfo5(_) => 5,
+    };
+    let one = |v: Option<&u32>| v.map(|x| vec![*x as u64]);
+    let items: Vec<(&str, Option<Vec<u64>>)> = vec![
+        ("size_of_info", one(r.size_of_info())),
+        ("flags1", one(r.flags1())),
+        ("process_id", one(r.process_id())),
+        ("process_create_time", one(r.process_create_time())),
+        ("process_user_time", one(r.process_user_time())),
+        ("process_kernel_time", one(r.process_kernel_time())),
+        ("processor_max_mhz", one(r.processor_max_mhz())),
+        ("processor_current_mhz", one(r.processor_current_mhz())),
+        ("processor_mhz_limit", one(r.processor_mhz_limit())),
+        ("processor_max_idle_state", one(r.processor_max_idle_state())),
+        ("processor_current_idle_state", one(r.processor_current_idle_state())),
+        ("process_integrity_level", one(r.process_integrity_level())),
+        ("process_execute_flags", one(r.process_execute_flags())),
+        ("protected_process", one(r.protected_process())),
+        ("time_zone_id", one(r.time_zone_id())),
+        ("time_zone", r.time_zone().map(tz_vals)),
+        ("build_string", r.build_string().map(|a| a.iter().map(|x| *x as u64).collect())),
+        ("dbg_bld_str", r.dbg_bld_str().map(|a| a.iter().map(|x| *x as u64).collect())),
+        (
+            "xstate_data",
+            r.xstate_data().map(|x| {
+                let mut v = vec![x.size_of_info as u64, x.context_size as u64, x.enabled_features];
+                for f in x.features.iter() {
+                    v.push(f.offset as u64);
+                    v.push(f.size as u64);
+                }
+                v
+            }),
+        ),
+        ("process_cookie", one(r.process_cookie())),
+    ];
+    let mut out = vec![ver.to_string()];
+    for (name, v) in items {
+        out.push(format!("{}={}", name, v.map(|v| nat_list(&v)).unwrap_or("~".into())));
+    }
+    out.join(";")
 }
 
 /// the probe addresses of a region list (base, bytes-length): around both ends of every region
@@ -954,6 +1264,12 @@ fn real_report(bytes: &[u8], ids: &[u32]) -> String {
             );
         }
     }
+    // misc info
+    o.push_str(" Y=");
+    match dump.get_stream::<MinidumpMiscInfo>() {
+        Err(e) => o.push_str(&err_name(&e)),
+        Ok(mi) => o.push_str(&misc_text(&mi)),
+    }
     o
 }
 
@@ -1179,6 +1495,19 @@ fn expected_report(m: &Model, be: bool, mem64: bool, as_code: bool) -> String {
             );
         }
     }
+    match &m.misc {
+        None => o.push_str(" Y=err StreamNotFound"),
+        Some(y) => {
+            // a field is reported iff the revision has it and its Flags1 bit (if any) is set
+            let mut out = vec![y.ver.to_string()];
+            let fl = y.vals[1] as u32;
+            for (name, since, bit, at, n) in MISC_FIELDS {
+                let valid = y.ver >= since && (bit == 0 || fl & bit != 0);
+                out.push(format!("{}={}", name, if valid { nat_list(&y.vals[at..at + n]) } else { "~".into() }));
+            }
+            let _ = write!(o, " Y={}", out.join(";"));
+        }
+    }
     o
 }
 
@@ -1371,7 +1700,7 @@ impl Engine for Roundtrip {
             // report comparison above decides: a raw extra served in its place would be reported
             // instead of the model's items. For any other type the LAST extra of that type is served.
             if let Ok(dump) = Minidump::<&[u8]>::read(&bytes[..]) {
-                let core = |ty: u32| [3u32, 4, 5, 9, 16, 24, 14].contains(&ty) || (ty == 6 && m.exc.is_some()) || (ty == 7 && m.sys.is_some());
+                let core = |ty: u32| [3u32, 4, 5, 9, 16, 24, 14].contains(&ty) || (ty == 6 && m.exc.is_some()) || (ty == 7 && m.sys.is_some()) || (ty == 15 && m.misc.is_some());
                 let mut seen = Vec::new();
                 for (ty, _) in m.extra.iter() {
                     if core(*ty) || seen.contains(ty) {
@@ -1440,6 +1769,15 @@ impl Engine for Roundtrip {
         }
         if top_region(&m) {
             res.tags.push("region-at-top".into());
+        }
+        match &m.misc {
+            None => res.tags.push("misc:none".into()),
+            Some(y) => {
+                res.tags.push(format!("misc:v{}", y.ver));
+                if !y.tail.data.is_empty() {
+                    res.tags.push("misc:tail".into());
+                }
+            }
         }
         res
     }
@@ -1519,12 +1857,13 @@ impl Engine for Roundtrip {
         shrink_list!(names);
         shrink_list!(unloaded);
         shrink_list!(extra);
-        for f in 0..4 {
+        for f in 0..5 {
             let mut c = m.clone();
             match f {
                 0 => c.exc = None,
                 1 => c.sys = None,
                 2 => c.pad = false,
+                3 => c.misc = None,
                 _ => c.flags = 0,
             }
             if c != m && still_fails(&c.line()) {
@@ -1844,10 +2183,63 @@ fn gen_model(rng: &mut Rng, tier: Tier, k: usize) -> Model {
             ctx: rand_ctx(rng, be_ctx),
         });
     }
+    // misc info: every revision; flags from consistent to arbitrary; guarded fields filled whatever the flags say
+    if rng.chance(3, 5) {
+        let ver = 1 + rng.below(5) as usize;
+        let w = misc_widths();
+        let canonical = rng.chance(1, 2);
+        let fl: u32 = match rng.below(4) {
+            0 => 0,
+            1 => 0x3f7,
+            2 if !canonical => rand_u32(rng),
+            _ => (rng.next() as u32) & 0x3f7,
+        };
+        // what a writer of that revision would set
+        let known: u32 = [0x7u32, 0x7, 0xf7, 0x1f7, 0x3f7][ver - 1];
+        let fl = if canonical { fl & known } else { fl };
+        let mut vals: Vec<u64> = (0..MISC_COUNTS[ver - 1])
+            .map(|i| {
+                let v = match rng.below(4) {
+                    0 => 0,
+                    1 => u64::MAX,
+                    _ => rng.next() >> rng.below(64),
+                };
+                if w[i] < 8 {
+                    v & ((1u64 << (8 * w[i])) - 1)
+                } else {
+                    v
+                }
+            })
+            .collect();
+        vals[1] = fl as u64;
+        let room = if ver < 5 { MISC_SIZES[ver] - MISC_SIZES[ver - 1] - 1 } else { 64 };
+        let tail_len = match rng.below(4) {
+            0 | 1 => 0,
+            2 => room,
+            _ => rng.below(room as u64 + 1) as usize,
+        };
+        let mut tail = Blob::pat(rng.below(256), tail_len);
+        if canonical {
+            // zero whatever the flags do not vouch for; size_of_info = the stream's length
+            for (_, since, bit, at, n) in MISC_FIELDS {
+                if bit != 0 && fl & bit == 0 && (since as usize) <= ver {
+                    for v in vals[at..at + n].iter_mut() {
+                        *v = 0;
+                    }
+                }
+            }
+            tail = Blob::raw(vec![0; tail_len]);
+            vals[0] = (MISC_SIZES[ver - 1] + tail_len) as u64;
+        }
+        m.misc = Some(Misc { ver: ver as u8, tail, vals });
+    }
     // duplicate directory entries: raw streams under types that occur again later, and foreign types
     if rng.chance(1, 3) {
         for _ in 0..1 + rng.below(3) {
-            let mut tys = vec![3u32, 4, 16, 24, 14, 0x4767_0001, 0xffff_0000, 15];
+            let mut tys = vec![3u32, 4, 16, 24, 14, 0x4767_0001, 0xffff_0000, 21];
+            if m.misc.is_some() {
+                tys.push(15);
+            }
             if m.exc.is_some() {
                 tys.push(6);
             }
